@@ -92,9 +92,13 @@ def kept_text(chk, pd, seed):
     # ... and classes of another module inside builtin generics and `|` unions (PEP 585 / 604), which must be imported
     oname = "c13other_%d" % (seed % 1000)
     pd.load(oname, "class Foo:\n    pass\n\n\nclass Bar:\n    class Inner:\n        pass\n")
-    src[0] = "import %s\n" % oname + src[0]
+    src[0] = "import collections.abc\nimport %s\n" % oname + src[0]
     cross = ["list[%s.Foo]" % oname, "%s.Foo | None" % oname, "dict[str, %s.Bar.Inner]" % oname, "tuple[%s.Foo, ...]" % oname,
-             "List[%s.Foo]" % oname]
+             "List[%s.Foo]" % oname,
+             # the parameter list of a PEP 585 Callable is a list inside __args__' flat form: its classes need imports too
+             "collections.abc.Callable[[%s.Foo], int]" % oname, "collections.abc.Callable[[int, %s.Bar.Inner], %s.Foo]" % (oname, oname),
+             "collections.abc.Callable[..., %s.Foo]" % oname, "type[%s.Foo]" % oname, "list[list[%s.Foo]]" % oname,
+             "collections.abc.Iterable[%s.Foo]" % oname]
     for j, a in enumerate(cross):
         src.append("def x%d(p0: %s, p1: %s = None) -> %s:\n    return None\n\n\n" % (j, a, a, a))
     name = "c13kept_%d" % (seed % 1000)
